@@ -21,8 +21,21 @@ pub const PROPS: [&str; 18] = [
     "C16", "C17", "C19", "C20",
 ];
 
+/// the verification root: VERIF_ROOT, else the directory that contains sim/ of the running
+/// binary (so a snapshot copy of /verif writes into itself), else /verif
 fn root() -> String {
-    std::env::var("VERIF_ROOT").unwrap_or_else(|_| "/verif".to_string())
+    if let Ok(r) = std::env::var("VERIF_ROOT") {
+        return r;
+    }
+    if let Ok(exe) = std::env::current_exe() {
+        // <root>/sim/target/release/halosim
+        if let Some(r) = exe.ancestors().nth(4) {
+            if r.join("sim").join("Cargo.toml").exists() {
+                return r.to_string_lossy().to_string();
+            }
+        }
+    }
+    "/verif".to_string()
 }
 
 fn base_seed() -> u64 {
